@@ -418,6 +418,17 @@ CHUNK_CLASSES = [
 ]
 CHUNK_TYPES = dict((cls.type, cls) for cls in CHUNK_CLASSES)
 
+# Chunks whose value starts with mandatory fixed fields: on the wire their
+# body is never empty.
+CHUNK_CLASSES_WITH_FIXED_PART = (
+    DataChunk,
+    InitChunk,
+    InitAckChunk,
+    SackChunk,
+    ShutdownChunk,
+    ForwardTsnChunk,
+)
+
 
 def parse_packet(data: bytes) -> tuple[int, int, int, list[Chunk]]:
     length = len(data)
@@ -451,6 +462,12 @@ def parse_packet(data: bytes) -> tuple[int, int, int, list[Chunk]]:
         chunk_body = data[pos + SCTP_CHUNK_HEADER_LENGTH : pos + chunk_length]
         chunk_cls = CHUNK_TYPES.get(chunk_type)
         if chunk_cls:
+            # The constructors treat an empty body as "build a fresh chunk",
+            # a received chunk must carry its mandatory fields.
+            if not chunk_body and chunk_cls in CHUNK_CLASSES_WITH_FIXED_PART:
+                raise ValueError(
+                    f"SCTP chunk of type {chunk_type} is missing its mandatory fields"
+                )
             chunks.append(chunk_cls(flags=chunk_flags, body=chunk_body))
         pos += chunk_length + padl(chunk_length)
     return source_port, destination_port, verification_tag, chunks
